@@ -84,6 +84,8 @@ def render : Ev → String
   | .rp o => s!"r rp {oid o}"
   | .rpNone o => s!"r rp {oid o} !none"
   | .rpDone o => s!"rpdone {oid o}"
+  | .passLimit => "passlimit"
+  | .cgAfter v => s!"cg {match v with | some p => oid p | none => "-"}"
   | .junk s => s
 
 def parseOids (s : String) : Option (List Nat) :=
@@ -138,6 +140,8 @@ def parseEv (line : String) : Ev :=
     | ["r", "rp", o] => do some (.rp (← parseOid o))
     | ["r", "rp", o, "!none"] => do some (.rpNone (← parseOid o))
     | ["rpdone", o] => do some (.rpDone (← parseOid o))
+    | ["passlimit"] => some .passLimit
+    | ["cg", v] => if v == "-" then some (.cgAfter none) else (parseOid v).map (fun p => .cgAfter (some p))
     | _ => none
   match r with
   | some e => e
